@@ -1,0 +1,11 @@
+//go:build verif
+
+// Contracts for govc (contract-based deductive verification); comment-only, compiled only with -tags verif.
+package types
+
+// IsOpen reads the package-level slice NonSettledStatuses = {Pending, Candidate, Proven} through the generic
+// slices.Contains; assumed: that variable is never reassigned (no store to it exists in the module).
+//@ func (c CertificateStatus) IsOpen
+//@   trusted
+//@   modifies nothing
+//@   ensures result == (c == Pending || c == Candidate || c == Proven)
